@@ -675,6 +675,30 @@ func selfTest(env *fw.Env, acc []*fw.Trace) []*fw.Trace {
 			if e["ev"] != "Msg" {
 				continue
 			}
+			// 7. a legal re-handshake of an authenticated connection (phase 1 for its own id, then the right response)
+			// turned into a phase 2 that names another known client under that client's own key: the connection
+			// flips to that client and becomes its control channel
+			if post, _ := e["post"].(map[string]any); !done[7] && post != nil && e["out"].(map[string]any)["success"].(bool) && e["k"] == "P2" && e["key"] == e["id"] && i > 0 {
+				c, _ := e["c"].(string)
+				x, _ := e["id"].(string)
+				prev, _ := t.Events[i-1]["post"].(map[string]any)
+				y := ""
+				for n := range post["lookup"].(map[string]any) {
+					if n != x && issuedBefore(t.Events[:i], n) {
+						y = n
+					}
+				}
+				if prev != nil && y != "" && authedAs(prev, c, x) && challengeFor(t.Events[:i], c, e["over"], x) {
+					done[7] = true
+					add(7, t, func(evs []fw.Event) []fw.Event {
+						evs[i]["id"], evs[i]["key"] = y, y
+						p := evs[i]["post"].(map[string]any)
+						p["conns"].(map[string]any)[c].(map[string]any)["cid"] = y
+						p["lookup"].(map[string]any)[y] = c
+						return evs
+					})
+				}
+			}
 			// 6. a handshake from a banned address (whatever made the ban, before or after a clean-up tick) reported
 			// as successful
 			if c, _ := e["c"].(string); !done[6] && ban[c] && !e["out"].(map[string]any)["success"].(bool) {
@@ -748,11 +772,35 @@ func selfTest(env *fw.Env, acc []*fw.Trace) []*fw.Trace {
 				}
 			}
 		}
-		if len(out) >= 36 {
+		if len(out) >= 42 {
 			break
 		}
 	}
 	return out
+}
+
+// helpers of selfTest over recorded events
+func issuedBefore(evs []fw.Event, name string) bool {
+	for _, e := range evs {
+		if o, _ := e["out"].(map[string]any); o != nil && o["newid"] == name {
+			return true
+		}
+	}
+	return false
+}
+
+func authedAs(post map[string]any, c, x string) bool {
+	m, _ := post["conns"].(map[string]any)[c].(map[string]any)
+	return m != nil && m["authd"] == true && m["cid"] == x
+}
+
+func challengeFor(evs []fw.Event, c string, over any, x string) bool {
+	for _, e := range evs {
+		if o, _ := e["out"].(map[string]any); o != nil && e["k"] == "P1" && e["c"] == c && e["id"] == x && fmt.Sprint(o["nonce"]) == fmt.Sprint(over) {
+			return true
+		}
+	}
+	return false
 }
 
 func withTimeout(d time.Duration, jobs []fw.TLCJob) []fw.TLCJob {
@@ -776,13 +824,14 @@ func main() {
 			if env.Tier == "thorough" {
 				return withTimeout(40*time.Minute, []fw.TLCJob{
 					job("handshake 2x2 depth 8, patched tree", "Session_c03.cfg", "8", 0),
-					{Name: "handshake 2x2 depth 8, unpatched tree", Module: "Session", Cfg: "Session_c03.cfg",
-						Consts: map[string]string{"FIXES": "{}", "LEVEL": "8", "EMIT": `"no"`}},
+					{Name: "handshake 2x2 depth 7, unpatched tree", Module: "Session", Cfg: "Session_c03.cfg",
+						Consts: map[string]string{"FIXES": "{}", "LEVEL": "7", "EMIT": `"no"`}},
 					job("handshake 3x3 depth 6, patched tree", "Session_c03t.cfg", "6", 0),
 					job("addresses (lists, restart) depth 8", "Session_c03addr.cfg", "8", 0),
 					job("stored secrets (undecryptable, reset) depth 9", "Session_c03key.cfg", "9", 0),
 					job("protector life-cycle (ban kinds, clean-up tick) depth 8", "Session_c03ban.cfg", "8", 0),
 					job("credential lifetime (expiry, binding, deletion) depth 10", "Session_c03cred.cfg", "10", 0),
+					job("messages alone, both types, depth 9", "Session_c03msg.cfg", "9", 0),
 					job("all environment actions depth 6", "Session_c03env.cfg", "6", 0),
 				})
 			}
@@ -795,7 +844,9 @@ func main() {
 		},
 		GenJobs: func(env *fw.Env) []fw.TLCJob {
 			gen := func(name, cfg, level string) fw.TLCJob {
-				return fw.TLCJob{Name: name, Module: "Session", Cfg: cfg, Workers: 4,
+				// one worker: with several, TLC's breadth-first search is not level-synchronous and the depth bound
+				// (TLCGet("level")) cuts a different frontier in every run
+				return fw.TLCJob{Name: name, Module: "Session", Cfg: cfg, Workers: 1,
 					Consts: map[string]string{"FIXES": fixes, "LEVEL": level, "EMIT": `"all"`}}
 			}
 			if env.Tier == "thorough" {
@@ -804,6 +855,7 @@ func main() {
 					gen("gen:key", "Session_c03key.cfg", "6"),
 					gen("gen:ban", "Session_c03ban.cfg", "5"),
 					gen("gen:cred", "Session_c03cred.cfg", "7"),
+					gen("gen:msg", "Session_c03msg.cfg", "5"),
 					gen("gen:transitions 2x2", "Session_c03.cfg", "6"),
 					gen("gen:transitions 3x3", "Session_c03t.cfg", "4"),
 					{Name: "gen:simulate env", Module: "Session", Cfg: "Session_c03env.cfg", Workers: 4, Simulate: "num=4000", Depth: 15, Seed: env.Seed,
@@ -815,6 +867,7 @@ func main() {
 				gen("gen:key", "Session_c03key.cfg", "5"),
 				gen("gen:ban", "Session_c03ban.cfg", "4"),
 				gen("gen:cred", "Session_c03cred.cfg", "5"), // small: driven completely (also model-checked to that depth by the same run)
+				gen("gen:msg", "Session_c03msg.cfg", "4"),   // likewise: every message class on fresh and on authenticated connections
 				gen("gen:transitions 2x2", "Session_c03.cfg", "5"),
 				{Name: "gen:simulate env", Module: "Session", Cfg: "Session_c03env.cfg", Workers: 4, Simulate: "num=600", Depth: 11, Seed: env.Seed,
 					Consts: map[string]string{"FIXES": fixes, "LEVEL": "10", "EMIT": `"last"`}},
@@ -825,7 +878,7 @@ func main() {
 			if env.Tier == "thorough" {
 				return map[string]int{"gen:ban": 30000, "gen:transitions 2x2": 30000, "gen:transitions 3x3": 12000, "gen:simulate env": 30000}[src]
 			}
-			return map[string]int{"gen:addr": 3500, "gen:key": 2500, "gen:ban": 3500, "gen:transitions 2x2": 3500, "gen:simulate env": 1500}[src]
+			return map[string]int{"gen:addr": 3500, "gen:key": 2500, "gen:ban": 3500, "gen:transitions 2x2": 2500, "gen:simulate env": 1500}[src]
 		},
 		// thorough: every behaviour that re-creates the address manager is driven over both value shapes of the store
 		Expand: func(env *fw.Env, src string, d json.RawMessage) []json.RawMessage {
